@@ -301,8 +301,8 @@ def tickRef (sc : Scripts) (w : World) : World × List Ev :=
     else ({ w with flag := false, todo := (w.hbs.length : Int), cur := none }, [.tickBegin, .tickEnd])
   else ({ w with flag := false, todo := (w.hbs.length : Int), cur := none }, [.tickOff, .tickEnd])
 
-theorem tick_eq_ref (sc : Scripts) (w : World) : tick sc w = tickRef sc w := by
-  unfold tick tickRef leave
+theorem tick_eq_ref (sc : Scripts) (w : World) : tickCore sc w = tickRef sc w := by
+  unfold tickCore tickRef leave
   simp only [gen_roundEntry_eq, gen_roundSkip_eq]
   cases hon : hbOn w.tflags with
   | true =>
